@@ -243,4 +243,499 @@ theorem binop_progress (it : Item) (op : BinOp) (ta tb τ : Ty) (va vb : Val α)
     simp only [ValOK] at ha hb <;> obtain ⟨x, rfl⟩ := ha <;> obtain ⟨y, rfl⟩ := hb <;>
     first | (simp [applyBinop]; done) | (exfalso; rcases hop with h | h <;> cases h)
 
+/-! ## Expressions -/
+
+section Main
+variable (cx : SemCtx α) (tcx : TyCx) (himpl : ImplsOK tcx.it cx) (hwf : tcx.it.WF) (htot : CxTotal tcx.it cx)
+include himpl hwf htot
+
+/-- The value an expression produced has the expression's type (a convenient form of `eval_preserves`). -/
+theorem ok_typed (e : Expr) (Γ : TEnv) (env : Env α) (log : Log α) (τ : Ty) (ht : e.ty tcx Γ = some τ)
+    (he : EnvOK tcx.it env Γ) (v : Val α) (l : Log α) (hr : eval cx env log e = .ok (v, l)) : ValOK tcx.it v τ := by
+  have := eval_preserves cx tcx himpl hwf e Γ env log τ ht he
+  rw [hr] at this; exact this
+
+theorem selfCall_progress (f : TraitFn) (vs : List (Val α)) (ts : List Ty) (τ : Ty)
+    (hty : selfCallTy f ts = some τ) (hvs : ValsOK tcx.it vs ts) : (cx.impls f vs).isSome = true := by
+  unfold selfCallTy at hty
+  split at hty <;> simp only [Option.some.injEq, reduceCtorEq] at hty
+  · obtain ⟨a, rfl, ha⟩ := valsOK1 hvs
+    exact htot.clone a (by simpa [ValOK] using ha)
+  · obtain ⟨a, b, rfl, ha, hb⟩ := valsOK2 hvs
+    exact htot.cmp a b (by simpa [ValOK] using ha) (by simpa [ValOK] using hb)
+  · obtain ⟨a, rfl, ha⟩ := valsOK1 hvs
+    exact htot.zeroize a (by simpa [ValOK] using ha)
+
+mutual
+/-- **Progress.** -/
+theorem eval_progress : ∀ (e : Expr) (Γ : TEnv) (env : Env α) (log : Log α) (τ : Ty),
+    e.ty tcx Γ = some τ → EnvOK tcx.it env Γ → eval cx env log e ≠ .stuck
+  | .litBool b, Γ, env, log, τ, _, _ => by simp [eval]
+  | .litInt n, Γ, env, log, τ, _, _ => by simp [eval]
+  | .litStr s', Γ, env, log, τ, _, _ => by simp [eval]
+  | .var x, Γ, env, log, τ, ht, he => by
+    simp only [Expr.ty] at ht
+    obtain ⟨v, hv, _⟩ := he x τ ht
+    simp [eval, hv]
+  | .equal, Γ, env, log, τ, _, _ => by simp [eval]
+  | .none_, Γ, env, log, τ, _, _ => by simp [eval]
+  | .unitCtor k, Γ, env, log, τ, _, _ => by simp [eval]
+  | .userDiscr k, Γ, env, log, τ, ht, _ => by
+    simp only [Expr.ty] at ht
+    split at ht
+    · rename_i d hd
+      split at ht
+      · rename_i hdisc
+        have := htot.userDiscr k d hd hdisc
+        simp only [eval]
+        cases h : cx.userDiscr k with
+        | none => simp [h] at this
+        | some n => simp
+      · cases ht
+    · cases ht
+  | .defaultCall k i, Γ, env, log, τ, _, _ => by simp [eval]
+  | .call f args, Γ, env, log, τ, ht, he => by
+    simp only [Expr.ty] at ht
+    cases hts : Expr.tys tcx Γ args with
+    | none => simp [hts] at ht
+    | some ts =>
+      simp only [hts, Option.bind] at ht
+      simp only [eval]
+      refine bind_ne_stuck _ _ (evalList_progress args Γ env log ts hts he) ?_
+      intro b hb
+      obtain ⟨vs, l⟩ := b
+      have := evalList_preserves cx tcx himpl hwf args Γ env log ts hts he
+      rw [hb] at this
+      exact applyFn_progress tcx.it cx f vs ts τ l ht this
+  | .callT f args, Γ, env, log, τ, ht, he => by
+    simp only [Expr.ty] at ht
+    cases hts : Expr.tys tcx Γ args with
+    | none => simp [hts] at ht
+    | some ts =>
+      simp only [hts, Option.bind] at ht
+      simp only [eval]
+      refine bind_ne_stuck _ _ (evalList_progress args Γ env log ts hts he) ?_
+      intro b hb
+      obtain ⟨vs, l⟩ := b
+      have := evalList_preserves cx tcx himpl hwf args Γ env log ts hts he
+      rw [hb] at this
+      exact applyFn_progress tcx.it cx f vs ts τ l ht this
+  | .selfCall f args, Γ, env, log, τ, ht, he => by
+    simp only [Expr.ty] at ht
+    cases hts : Expr.tys tcx Γ args with
+    | none => simp [hts] at ht
+    | some ts =>
+      simp only [hts, Option.bind] at ht
+      simp only [eval]
+      refine bind_ne_stuck _ _ (evalList_progress args Γ env log ts hts he) ?_
+      intro b hb
+      obtain ⟨vs, l⟩ := b
+      have hvs := evalList_preserves cx tcx himpl hwf args Γ env log ts hts he
+      rw [hb] at hvs
+      have := selfCall_progress cx tcx himpl hwf htot f vs ts τ ht hvs
+      simp only
+      cases h : cx.impls f vs with
+      | none => simp [h] at this
+      | some v => simp
+  | .discFnCall body arg, Γ, env, log, τ, ht, he => by
+    simp only [Expr.ty] at ht
+    split at ht
+    · rename_i t harg hbody
+      simp only [eval]
+      refine bind_ne_stuck _ _ (eval_progress arg Γ env log _ harg he) ?_
+      intro b hb
+      obtain ⟨v, l⟩ := b
+      have hv := ok_typed cx tcx himpl hwf htot arg Γ env log _ harg he v l hb
+      exact eval_progress body [(.this, .ref .self_)] [(.this, v)] l t hbody (envOK_this tcx.it v hv)
+    · cases ht
+  | .validateConst _ body, Γ, env, log, τ, ht, _ => by
+    simp only [Expr.ty] at ht
+    split at ht
+    · rename_i hbody
+      simp only [eval]
+      exact eval_progress body [] [] log .int hbody (envOK_nil tcx.it [])
+    · cases ht
+  | .methodCall recv m, Γ, env, log, τ, ht, he => by
+    simp only [Expr.ty] at ht
+    split at ht
+    · rename_i k i hrecv
+      simp only [eval]
+      refine bind_ne_stuck _ _ (eval_progress recv Γ env log _ hrecv he) ?_
+      intro b hb
+      obtain ⟨v, l⟩ := b
+      have hv := ok_typed cx tcx himpl hwf htot recv Γ env log _ hrecv he v l hb
+      simp only [ValOK] at hv
+      obtain ⟨j, a, rfl⟩ := hv
+      cases m <;> simp
+    · cases ht
+  | .ref e, Γ, env, log, τ, ht, he => by
+    simp only [Expr.ty] at ht
+    cases hte : e.ty tcx Γ with
+    | none => simp [hte] at ht
+    | some t => simp only [eval]; exact eval_progress e Γ env log t hte he
+  | .refMut e, Γ, env, log, τ, ht, he => by
+    simp only [Expr.ty] at ht
+    cases hte : e.ty tcx Γ with
+    | none => simp [hte] at ht
+    | some t => simp only [eval]; exact eval_progress e Γ env log t hte he
+  | .deref e, Γ, env, log, τ, ht, he => by
+    simp only [Expr.ty] at ht
+    cases hte : e.ty tcx Γ with
+    | none => simp [hte] at ht
+    | some t => simp only [eval]; exact eval_progress e Γ env log t hte he
+  | .cast e _, Γ, env, log, τ, ht, he => by
+    simp only [Expr.ty] at ht
+    cases hte : e.ty tcx Γ with
+    | none => simp [hte] at ht
+    | some t =>
+      simp only [eval]
+      refine bind_ne_stuck _ _ (eval_progress e Γ env log t hte he) ?_
+      intro b hb
+      obtain ⟨v, l⟩ := b
+      have hv := ok_typed cx tcx himpl hwf htot e Γ env log t hte he v l hb
+      simp only [hte] at ht
+      split at ht
+      · rename_i heq; cases heq
+        simp only [ValOK] at hv; obtain ⟨n, rfl⟩ := hv; simp
+      · rename_i heq; cases heq
+        split at ht
+        · rename_i hfl
+          obtain ⟨k, fs, rfl⟩ := wfVal_adt (by simpa [ValOK] using hv)
+          simp [htot.fieldless hfl]
+        · cases ht
+      · cases ht
+  | .binop op a b, Γ, env, log, τ, ht, he => by
+    simp only [Expr.ty] at ht
+    split at ht
+    · rename_i ta tb hta htb
+      have pa := eval_progress a Γ env log ta hta he
+      cases op
+      · have hb : ta = .bool ∧ tb = .bool := by unfold binopTy at ht; split at ht <;> simp_all
+        obtain ⟨rfl, rfl⟩ := hb
+        simp only [eval]
+        refine bind_ne_stuck _ _ pa ?_
+        intro r hr
+        obtain ⟨v, l⟩ := r
+        have hv := ok_typed cx tcx himpl hwf htot a Γ env log _ hta he v l hr
+        simp only [ValOK] at hv; obtain ⟨x, rfl⟩ := hv
+        cases x
+        · simp
+        · simp only; exact eval_progress b Γ env l .bool htb he
+      · have hb : ta = .bool ∧ tb = .bool := by unfold binopTy at ht; split at ht <;> simp_all
+        obtain ⟨rfl, rfl⟩ := hb
+        simp only [eval]
+        refine bind_ne_stuck _ _ pa ?_
+        intro r hr
+        obtain ⟨v, l⟩ := r
+        have hv := ok_typed cx tcx himpl hwf htot a Γ env log _ hta he v l hr
+        simp only [ValOK] at hv; obtain ⟨x, rfl⟩ := hv
+        cases x
+        · simp only; exact eval_progress b Γ env l .bool htb he
+        · simp
+      · simp only [eval]
+        refine bind_ne_stuck _ _ pa ?_
+        intro r hr
+        obtain ⟨va, l⟩ := r
+        have hva := ok_typed cx tcx himpl hwf htot a Γ env log _ hta he va l hr
+        refine bind_ne_stuck _ _ (eval_progress b Γ env l tb htb he) ?_
+        intro r' hr'
+        obtain ⟨vb, l'⟩ := r'
+        have hvb := ok_typed cx tcx himpl hwf htot b Γ env l _ htb he vb l' hr'
+        have := binop_progress tcx.it .eq ta tb τ va vb ht hva hvb (Or.inl rfl)
+        simp only
+        cases h : applyBinop .eq va vb with
+        | none => simp [h] at this
+        | some v => simp
+      · simp only [eval]
+        refine bind_ne_stuck _ _ pa ?_
+        intro r hr
+        obtain ⟨va, l⟩ := r
+        have hva := ok_typed cx tcx himpl hwf htot a Γ env log _ hta he va l hr
+        refine bind_ne_stuck _ _ (eval_progress b Γ env l tb htb he) ?_
+        intro r' hr'
+        obtain ⟨vb, l'⟩ := r'
+        have hvb := ok_typed cx tcx himpl hwf htot b Γ env l _ htb he vb l' hr'
+        have := binop_progress tcx.it .add ta tb τ va vb ht hva hvb (Or.inr rfl)
+        simp only
+        cases h : applyBinop .add va vb with
+        | none => simp [h] at this
+        | some v => simp
+    · cases ht
+  | .paren e, Γ, env, log, τ, ht, he => by
+    simp only [Expr.ty] at ht
+    simp only [eval]
+    exact eval_progress e Γ env log τ ht he
+  | .tuple es, Γ, env, log, τ, ht, he => by
+    simp only [Expr.ty] at ht
+    split at ht
+    · rename_i a b hts
+      simp only [eval]
+      refine bind_ne_stuck _ _ (evalList_progress es Γ env log [a, b] hts he) ?_
+      intro r _; simp
+    · cases ht
+  | .ifElse c t e, Γ, env, log, τ, ht, he => by
+    simp only [Expr.ty] at ht
+    split at ht
+    · rename_i tt te hc htt hte
+      simp only [eval]
+      refine bind_ne_stuck _ _ (eval_progress c Γ env log .bool hc he) ?_
+      intro r hr
+      obtain ⟨v, l⟩ := r
+      have hv := ok_typed cx tcx himpl hwf htot c Γ env log _ hc he v l hr
+      simp only [ValOK] at hv; obtain ⟨x, rfl⟩ := hv
+      cases x
+      · simp only; exact eval_progress e Γ env l te hte he
+      · simp only; exact eval_progress t Γ env l tt htt he
+    · cases ht
+  | .match_ s' arms, Γ, env, log, τ, ht, he => by
+    simp only [Expr.ty] at ht
+    split at ht
+    · rename_i ts hs
+      split at ht
+      · rename_i hex
+        simp only [eval]
+        refine bind_ne_stuck _ _ (eval_progress s' Γ env log ts hs he) ?_
+        intro r hr
+        obtain ⟨v, l⟩ := r
+        have hv := ok_typed cx tcx himpl hwf htot s' Γ env log _ hs he v l hr
+        exact evalArms_progress arms Γ env l v ts τ ht hv he (exhaustive_witness tcx.it ts arms v hex hv)
+      · cases ht
+    · cases ht
+  | .block stmts tail, Γ, env, log, τ, ht, he => by
+    simp only [Expr.ty] at ht
+    split at ht
+    · rename_i Γ' hst
+      simp only [eval]
+      refine bind_ne_stuck _ _ (evalStmts_progress stmts Γ env log Γ' hst he) ?_
+      intro r hr
+      obtain ⟨env', l⟩ := r
+      have henv := evalStmts_preserves cx tcx himpl hwf stmts Γ env log Γ' hst he
+      rw [hr] at henv
+      exact eval_progress tail Γ' env' l τ ht henv
+    · cases ht
+  | .unsafe_ e, Γ, env, log, τ, ht, he => by
+    simp only [Expr.ty] at ht
+    simp only [eval]
+    exact eval_progress e Γ env log τ ht he
+  | .ptrRead e _, Γ, env, log, τ, ht, he => by
+    simp only [Expr.ty] at ht
+    split at ht
+    · rename_i hte
+      simp only [eval]
+      refine bind_ne_stuck _ _ (eval_progress e Γ env log _ hte he) ?_
+      intro b hb
+      obtain ⟨v, l⟩ := b
+      have hv := ok_typed cx tcx himpl hwf htot e Γ env log _ hte he v l hb
+      obtain ⟨k, fs, rfl⟩ := wfVal_adt (by simpa [ValOK] using hv)
+      simp only
+      split <;> simp
+    · cases ht
+  | .ret e, Γ, env, log, τ, ht, he => by
+    simp only [Expr.ty] at ht
+    split at ht
+    · rename_i t hte
+      simp only [eval]
+      refine bind_ne_stuck _ _ (eval_progress e Γ env log t hte he) ?_
+      intro b _; simp
+    · cases ht
+  | .structLit k fields, Γ, env, log, τ, ht, he => by
+    simp only [Expr.ty] at ht
+    split at ht
+    · split at ht
+      · rename_i hc
+        simp only [eval]
+        refine bind_ne_stuck _ _ (evalFields_progress fields Γ env log k 0 hc.2.1 he) ?_
+        intro b _; simp
+      · cases ht
+    · cases ht
+  | .matches_ e p, Γ, env, log, τ, ht, he => by
+    simp only [Expr.ty] at ht
+    split at ht
+    · rename_i t hte
+      simp only [eval]
+      refine bind_ne_stuck _ _ (eval_progress e Γ env log t hte he) ?_
+      intro b _; simp
+    · cases ht
+  | .unreachable, Γ, env, log, τ, _, _ => by simp [eval]
+  | .unit, Γ, env, log, τ, _, _ => by simp [eval]
+  | .seq es, Γ, env, log, τ, ht, he => by
+    match es, ht with
+    | [e], ht =>
+      simp only [Expr.ty] at ht
+      simp only [eval]
+      exact eval_progress e Γ env log τ ht he
+    | [], ht => simp [Expr.ty] at ht
+    | _ :: _ :: _, ht => simp [Expr.ty] at ht
+theorem evalList_progress : ∀ (es : List Expr) (Γ : TEnv) (env : Env α) (log : Log α) (ts : List Ty),
+    Expr.tys tcx Γ es = some ts → EnvOK tcx.it env Γ → evalList cx env log es ≠ .stuck
+  | [], Γ, env, log, ts, _, _ => by simp [evalList]
+  | e :: es, Γ, env, log, ts, ht, he => by
+    simp only [Expr.tys] at ht
+    split at ht
+    · rename_i t ts' hte hts
+      simp only [evalList]
+      refine bind_ne_stuck _ _ (eval_progress e Γ env log t hte he) ?_
+      intro b _
+      obtain ⟨v, l⟩ := b
+      refine bind_ne_stuck _ _ (evalList_progress es Γ env l ts' hts he) ?_
+      intro b' _; simp
+    · cases ht
+theorem evalArms_progress : ∀ (arms : List Arm) (Γ : TEnv) (env : Env α) (log : Log α) (v : Val α) (ts τ : Ty),
+    Arm.tys tcx Γ ts arms = some τ → ValOK tcx.it v ts → EnvOK tcx.it env Γ →
+      (∃ a ∈ arms, (matchPat a.pat v).isSome = true) → evalArms cx env log v arms ≠ .stuck
+  | [], Γ, env, log, v, ts, τ, _, _, _, hw => by obtain ⟨a, ha, _⟩ := hw; simp at ha
+  | .mk p e c :: arms, Γ, env, log, v, ts, τ, ht, hv, he, hw => by
+    simp only [Arm.tys] at ht
+    split at ht
+    · rename_i bt hbt
+      split at ht
+      · rename_i t t' hte hrest
+        simp only [evalArms]
+        split
+        · rename_i b hb
+          exact eval_progress e (bt ++ Γ) (b ++ env) log t hte
+            (EnvOK.extend (matchPat_preserves tcx.it p v ts b bt hbt hv hb) he)
+        · rename_i hnone
+          refine evalArms_progress arms Γ env log v ts t' hrest hv he ?_
+          obtain ⟨a, ha, hm⟩ := hw
+          rcases List.mem_cons.mp ha with rfl | ha'
+          · simp [Arm.pat, hnone] at hm
+          · exact ⟨a, ha', hm⟩
+      · cases ht
+    · cases ht
+theorem evalFields_progress : ∀ (fs : List FieldInit) (Γ : TEnv) (env : Env α) (log : Log α) (k j : Nat),
+    FieldInit.check tcx Γ k j fs = true → EnvOK tcx.it env Γ → evalFields cx env log fs ≠ .stuck
+  | [], Γ, env, log, k, j, _, _ => by simp [evalFields]
+  | .mk i e :: fs, Γ, env, log, k, j, hc, he => by
+    simp only [FieldInit.check, Bool.and_eq_true, decide_eq_true_eq] at hc
+    obtain ⟨⟨_, hte⟩, hrest⟩ := hc
+    cases hty : e.ty tcx Γ with
+    | none => simp [hty] at hte
+    | some t =>
+      simp only [evalFields]
+      refine bind_ne_stuck _ _ (eval_progress e Γ env log t hty he) ?_
+      intro b _
+      obtain ⟨v, l⟩ := b
+      refine bind_ne_stuck _ _ (evalFields_progress fs Γ env l k (j + 1) hrest he) ?_
+      intro b' _; simp
+theorem evalStmts_progress : ∀ (ss : List Stmt) (Γ : TEnv) (env : Env α) (log : Log α) (Γ' : TEnv),
+    Stmt.checks tcx Γ ss = some Γ' → EnvOK tcx.it env Γ → evalStmts cx env log ss ≠ .stuck
+  | [], Γ, env, log, Γ', _, _ => by simp [evalStmts]
+  | .let_ p e :: ss, Γ, env, log, Γ', ht, he => by
+    simp only [Stmt.checks, Stmt.check] at ht
+    cases hte : e.ty tcx Γ with
+    | none => simp [hte] at ht
+    | some t =>
+      simp only [hte] at ht
+      cases htot' : p.total tcx.it t with
+      | false => simp [htot'] at ht
+      | true =>
+        cases hbt : p.bindTy tcx.it t with
+        | none => simp [hbt, htot'] at ht
+        | some bt =>
+          simp only [hbt, htot', if_true, Option.map] at ht
+          simp only [evalStmts]
+          refine bind_ne_stuck _ _ (eval_progress e Γ env log t hte he) ?_
+          intro b hb
+          obtain ⟨v, l⟩ := b
+          have hv := ok_typed cx tcx himpl hwf htot e Γ env log _ hte he v l hb
+          have hm := total_matches tcx.it p v t htot' hv
+          simp only
+          cases hmp : matchPat p v with
+          | none => simp [hmp] at hm
+          | some bs =>
+            simp only
+            exact evalStmts_progress ss (bt ++ Γ) (bs ++ env) l Γ' ht
+              (EnvOK.extend (matchPat_preserves tcx.it p v t bs bt hbt hv hmp) he)
+  | .semi e :: ss, Γ, env, log, Γ', ht, he => by
+    simp only [Stmt.checks, Stmt.check] at ht
+    cases hte : e.ty tcx Γ with
+    | none => simp [hte] at ht
+    | some t =>
+      simp only [hte, Option.isSome_some, if_true] at ht
+      simp only [evalStmts]
+      refine bind_ne_stuck _ _ (eval_progress e Γ env log t hte he) ?_
+      intro b _
+      obtain ⟨v, l⟩ := b
+      exact evalStmts_progress ss Γ env l Γ' ht he
+  | .ifRet c r :: ss, Γ, env, log, Γ', ht, he => by
+    simp only [Stmt.checks, Stmt.check] at ht
+    split at ht
+    · rename_i Γ1 hchk
+      split at hchk
+      · rename_i t hc hr
+        split at hchk
+        · cases hchk
+          simp only [evalStmts]
+          refine bind_ne_stuck _ _ (eval_progress c Γ env log .bool hc he) ?_
+          intro b hb
+          obtain ⟨v, l⟩ := b
+          have hv := ok_typed cx tcx himpl hwf htot c Γ env log _ hc he v l hb
+          simp only [ValOK] at hv; obtain ⟨x, rfl⟩ := hv
+          cases x
+          · simp only; exact evalStmts_progress ss Γ env l Γ' ht he
+          · simp only
+            refine bind_ne_stuck _ _ (eval_progress r Γ env l t hr he) ?_
+            intro b' _; simp
+        · cases hchk
+      · cases hchk
+    · cases ht
+  | .assertEq k i :: ss, Γ, env, log, Γ', ht, he => by
+    simp only [Stmt.checks, Stmt.check] at ht
+    split at ht
+    · rename_i Γ1 hchk
+      have : Γ1 = Γ := by
+        split at hchk
+        · split at hchk <;> simp_all
+        · cases hchk
+      subst this
+      simp only [evalStmts]
+      exact evalStmts_progress ss Γ1 env log Γ' ht he
+    · cases ht
+  | .assertCopySelf :: ss, Γ, env, log, Γ', ht, he => by
+    simp only [Stmt.checks, Stmt.check] at ht
+    simp only [evalStmts]
+    exact evalStmts_progress ss Γ env log Γ' ht he
+  | .structAssertEq :: ss, Γ, env, log, Γ', ht, he => by
+    simp only [Stmt.checks, Stmt.check] at ht
+    simp only [evalStmts]
+    exact evalStmts_progress ss Γ env log Γ' ht he
+  | .structAssertCopy :: ss, Γ, env, log, Γ', ht, he => by
+    simp only [Stmt.checks, Stmt.check] at ht
+    simp only [evalStmts]
+    exact evalStmts_progress ss Γ env log Γ' ht he
+  | .discFn _ validate body :: ss, Γ, env, log, Γ', ht, he => by
+    simp only [Stmt.checks, Stmt.check] at ht
+    split at ht
+    · rename_i Γ1 hchk
+      have : Γ1 = Γ := by
+        split at hchk
+        · split at hchk <;> simp_all
+        · cases hchk
+      subst this
+      simp only [evalStmts]
+      exact evalStmts_progress ss Γ1 env log Γ' ht he
+    · cases ht
+  | .validateDef _ e :: ss, Γ, env, log, Γ', ht, he => by
+    simp only [Stmt.checks, Stmt.check] at ht
+    split at ht
+    · rename_i Γ1 hchk
+      have : Γ1 = Γ := by
+        split at hchk <;> simp_all
+      subst this
+      simp only [evalStmts]
+      exact evalStmts_progress ss Γ1 env log Γ' ht he
+    · cases ht
+  | .useTrait :: ss, Γ, env, log, Γ', ht, he => by
+    simp only [Stmt.checks, Stmt.check] at ht
+    simp only [evalStmts]
+    exact evalStmts_progress ss Γ env log Γ' ht he
+  | .useAsserts :: ss, Γ, env, log, Γ', ht, he => by
+    simp only [Stmt.checks, Stmt.check] at ht
+    simp only [evalStmts]
+    exact evalStmts_progress ss Γ env log Γ' ht he
+end
+
+end Main
+
 end DW
